@@ -44,6 +44,16 @@ type T struct {
 	P *T
 }
 
+// declared composite types of every kind: only victim code may construct them
+type Voucher map[string]int
+type Ints []int
+type Tri [3]int
+
+func Redeem(v Voucher) int  { return v["mallory"] }
+func SumInts(v Ints) int    { return len(v) }
+func SumTri(v Tri) int      { return v[0] + v[1] + v[2] }
+func TakeT(t T) int         { return t.N }
+
 var (
 	X   int = 1
 	St  T   = T{N: 2}
